@@ -113,6 +113,12 @@ Proof.
 Qed.
 Print Assumptions close_elsewhere_refuted.
 
+Theorem shutdown_close_before_stop_refuted :
+  forall sites j sb sd, sb && sd = false -> nth_error sites j = Some (CPShutdown sb sd) ->
+    run sites init [EStartHandler; EJoin true true; EShutdownExit; EClose j; ERouterSend true] = CPanicSendClosed.
+Proof. exact shutdown_close_before_stop. Qed.
+Print Assumptions shutdown_close_before_stop_refuted.
+
 Theorem close_before_removal_refuted :
   forall sites j l,
     (forall d, nth_error sites j = Some (CPExit l false d) ->
